@@ -314,8 +314,12 @@ func underSeverityCase(param *ssa.Parameter, want constant.Value, b *ssa.BasicBl
 		return false
 	}
 	for _, r := range *refs {
-		bo, ok := r.(*ssa.BinOp)
-		if !ok || bo.Op != token.EQL {
+		rv, isV := r.(ssa.Value)
+		if !isV {
+			continue
+		}
+		bo, eq, ok := core.EqCond(rv)
+		if !ok {
 			continue
 		}
 		other := bo.Y
@@ -327,7 +331,7 @@ func underSeverityCase(param *ssa.Parameter, want constant.Value, b *ssa.BasicBl
 			continue
 		}
 		for _, br := range *bo.Referrers() {
-			if iff, ok := br.(*ssa.If); ok && core.EdgeDominates(iff.Block(), 0, b) {
+			if iff, ok := br.(*ssa.If); ok && core.EdgeDominates(iff.Block(), eq, b) {
 				return true
 			}
 		}
@@ -365,12 +369,17 @@ func dominatingStringCase(b *ssa.BasicBlock) string {
 			continue
 		}
 		bo, ok := iff.Cond.(*ssa.BinOp)
-		if !ok || bo.Op != token.EQL {
+		if !ok || (bo.Op != token.EQL && bo.Op != token.NEQ) {
 			continue
+		}
+		// the edge on which the operands are equal: true edge of `==`, false edge of `!=`
+		eq := 0
+		if bo.Op == token.NEQ {
+			eq = 1
 		}
 		for _, o := range []ssa.Value{bo.X, bo.Y} {
 			if k, ok := o.(*ssa.Const); ok && k.Value != nil && k.Value.Kind() == constant.String {
-				if core.EdgeDominates(id, 0, b) {
+				if core.EdgeDominates(id, eq, b) {
 					return constant.StringVal(k.Value)
 				}
 			}
